@@ -272,6 +272,8 @@ def kern(b: bool, n: int):
     cv = c[0:1, :]
     c2 = choose(flag=b, y=a, x=spec.get_static_trap(zone_id="B"))
     cw = grid.sub_grid(c2, [0], [0])
+    sk = a[1:2, :]
+    sk2 = grid.sub_grid(a, [1], [0])
     if b:
         x = spec.get_static_trap(zone_id="B")
     else:
@@ -290,7 +292,7 @@ def kern(b: bool, n: int):
     for k in range(n):
         u = away()
     t = u[:, 0:1]
-    return (x, y, w, v, u, t, p, q, c, cv, c2, cw)
+    return (x, y, w, v, u, t, p, q, c, cv, c2, cw, sk, sk2)
 '''
 
 
